@@ -650,6 +650,10 @@ class FnEmitter:
                 py, ty = self.sub_scoped(y, self.val)
                 if not px and not py:
                     return '(%s ? %s : %s)' % (cc, tx, ty)
+                # an arm contains a call that had to be hoisted (e.g. `exact ? n : std::max(a, b)`): evaluate only the selected arm
+                t = self.tmp(self.ctype(e))
+                self.pre.append('if (%s) { %s %s = %s; } else { %s %s = %s; }' % (cc, ' '.join(px), t, tx, ' '.join(py), t, ty))
+                return t
             return self.lv(sub)
         if ck in ('NoOp', 'FunctionToPointerDecay', 'BuiltinFnToFnPtr', 'UserDefinedConversion', 'ConstructorConversion'):
             return self.val(sub)
